@@ -1798,6 +1798,9 @@ fc_statements = [
         mixin=[
             "c_mixin_cfi_character_arg",
         ],
+        # strlen, memcpy
+        c_impl_header=["<string.h>"],
+        cxx_impl_header=["<cstring>"],
         f_arg_decl=[        # replace mixin
             "character(len=:), intent({f_intent}), allocatable :: {c_var}",
         ],
@@ -1926,6 +1929,9 @@ fc_statements = [
         mixin=[
             "c_mixin_cfi_character_arg",
         ],
+        # memcpy
+        c_impl_header=["<string.h>"],
+        cxx_impl_header=["<cstring>"],
         f_arg_decl=[        # replace mixin
             "character(len=:), intent({f_intent}), allocatable :: {c_var}",
         ],
